@@ -2,7 +2,7 @@
 #include "fb_common.h"
 #include "fiber_barrier.h"
 
-#define MAXR 4096
+#define MAXR 32768
 static fiber_barrier_t bar;
 static int count, rounds, trial;
 static _Atomic int arrived[MAXR], serial[MAXR];
@@ -42,6 +42,8 @@ void* sy_barrier_root(void* x) {
   const int fixed_count = (int)vp_param("count", 0);
   for (trial = 0; trial < trials; ++trial) {
     count = fixed_count ? fixed_count : counts[vp_rand(&rng) % 7];
+    const int maxcount = (int)vp_param("maxcount", 64);
+    while (count > maxcount) count = counts[vp_rand(&rng) % 7];
     rounds = max_rounds > MAXR ? MAXR : max_rounds;
     if (count >= 16) rounds = rounds / 4 + 1;
     memset(arrived, 0, sizeof(arrived));
